@@ -182,10 +182,18 @@ def ct_family(name):
     return name
 
 
+_CTINFO = {}
+
+
 def run_ct(case):
     spec = json.loads(case[4:])
-    ans = _server().request({"k": "CT", "spec": spec})
+    key = (spec["name"], spec.get("via"))
+    if key not in _CTINFO:
+        _CTINFO[key] = _server().request({"k": "CTINFO", "spec": spec})
     fam = ct_family(spec["name"])
+    if _CTINFO[key].get("validated_property"):
+        fam = "validated-property"   # also dynamic Range / Enum(values=) / WeakRef, which are built as properties
+    ans = _server().request({"k": "CT", "spec": spec})
     hits, tags = [], ["CT:" + spec["how"], "CT-via:" + spec.get("via", "as_ctrait")]
     if "crash" in ans:
         hits.append({"signature": "ctrait-getstate-crash:" + fam,
